@@ -87,23 +87,16 @@ Lemma refuted_timed_out : exists rs cs script,
   /\ existsb (tag_eqb TTimeout) (tags_C27 rs cs script) = true.
 Proof. exists w_rs, w_cs, w_script. repeat split; vm_compute; reflexivity. Qed.
 
-(** a coroutine's call on a descriptor number that is not open aborts the process *)
+(** a call on a descriptor number that is not open is answered with -1/EBADF, from a coroutine as
+    from a plain thread (the coroutine used to abort the process: repaired) *)
 Definition b_rs : list rspec := [{| rs_kind := KClosed; rs_pre := 0; rs_eof := false; rs_timed := false |}].
-Definition b_cs : list cspec :=
-  [{| cs_co := true; cs_tok := 1000; cs_prog := [{| c_op := ORead; c_res := 0%nat; c_len := 3; c_hold := false |}] |}].
 
-Lemma refuted_bad_fd : exists rs cs script,
-  wf_C27 rs cs script = true /\ ok_C27 rs cs script (run_C27 rs cs script) = false
-  /\ existsb (tag_eqb TBadFdCo) (tags_C27 rs cs script) = true.
-Proof. exists b_rs, b_cs, w_script. repeat split; vm_compute; reflexivity. Qed.
-
-(** the same call from a plain thread is answered with -1/EBADF *)
-Lemma thread_bad_fd_ok :
-  let cs := [{| cs_co := false; cs_tok := 1000;
+Lemma bad_fd_ok : forall co,
+  let cs := [{| cs_co := co; cs_tok := 1000;
                 cs_prog := [{| c_op := ORead; c_res := 0%nat; c_len := 3; c_hold := false |}] |}] in
   run_C27 b_rs cs w_script = {| o_calls := [[RErr EBADF]]; o_end := EndOk [0] [[]] |}
   /\ ok_C27 b_rs cs w_script (run_C27 b_rs cs w_script) = true.
-Proof. split; vm_compute; reflexivity. Qed.
+Proof. intros [|]; split; vm_compute; reflexivity. Qed.
 
 (** the oracle spelled out: the run ends normally, every caller has one accepted result per call of
     its program, nothing the descriptors delivered is missing *)
